@@ -198,11 +198,18 @@ def run(ctx, chk):
     val = M(r"vecdb::traits::writable::WritableVec::validate_computed_version_or_reset")
     trunc = M(r"vecdb::traits::writable::WritableVec::truncate_if_needed(_at)?")
     rep = M(r"vecdb::variants::eager::EagerVec::<V>::repeat_until_complete")
-    for a, b, what in ((val, trunc, "validate before truncate"), (trunc, rep, "truncate before the batch loop"),
-                       (val, rep, "validate before the batch loop")):
-        O.need_sites(ci, a, 1)
-        O.need_sites(ci, b, 1)
-        bad = O.precedes(ci, a, b)
+    vt = M(r"vecdb::traits::writable::WritableVec::validate_and_truncate")
+    units = [(ci, val, trunc, "validate before truncate"), (ci, trunc, rep, "truncate before the batch loop"),
+             (ci, val, rep, "validate before the batch loop")]
+    if O.sites(ci, vt) and not O.sites(ci, val):
+        # compute_init goes through the provided helper validate_and_truncate: the first ordering is the helper's
+        vtb = O.body("vecdb::traits::writable::WritableVec::validate_and_truncate")
+        units = [(vtb, val, trunc, "validate before truncate"), (ci, vt, rep, "truncate before the batch loop"),
+                 (ci, vt, rep, "validate before the batch loop")]
+    for body_, a, b, what in units:
+        O.need_sites(body_, a, 1)
+        O.need_sites(body_, b, 1)
+        bad = O.precedes(body_, a, b)
         chk.oblige("G2 precedes(compute_init: %s)" % what, not bad, key="G2|compute_init|%s" % what,
                    msg="stale results must be discarded (and the prefix cut back) before anything is computed")
     # every compute_* that validates directly (not via compute_init) does so before it pushes
